@@ -118,9 +118,14 @@ def opsTrav (op : String) (a : List String) : Option String :=
     pure (showR toString (gridPathCellsSize x y))
   | "path", [x, y] => do
     let x ← parseH x; let y ← parseH y
-    match gridPathCells x y with
-    | (some e, _) => pure ("err " ++ toString e.code)
-    | (none, o) => pure ("ok " ++ showArr o)
+    match gridPathCellsSize x y with
+    | .ok n =>
+      if n > 2000000 then pure "skip-too-large"
+      else
+        match gridPathCells x y with
+        | (some e, _) => pure ("err " ++ toString e.code)
+        | (none, o) => pure ("ok " ++ showArr o)
+    | .error e => pure ("err " ++ toString e.code)
   | "h2fijk", [h] => do
     let h ← parseH h
     pure (showR showFijk (h3ToFaceIjk h))
